@@ -263,22 +263,35 @@ def facts(case, o):
 
     evs = o["events"]
     clip = {}
+    ambiguous = False   # the events are keyed by column name: two sub-Reduces (DISTINCT splits) may use one name for different mechanisms
+
+    def put(d, k, v):
+        nonlocal ambiguous
+        if k in d and d[k] != v:
+            ambiguous = True
+        d[k] = v
     for e in evs:
         if e.get("ev") == "l2_clipped_sums":
             for name, col, c in e["clippings"]:
-                clip[name] = c
+                put(clip, name, c)
     gms = [e for e in evs if e.get("ev") == "gaussian_mechanisms"]
     sig_ev, bound_ev = {}, {}
     for e in gms:
         for name, s in e["sigmas"]:
-            sig_ev[name] = s
+            put(sig_ev, name, s)
         for name, b in e["bounds"]:
-            bound_ev[name] = b
+            put(bound_ev, name, b)
     taus_ev = [e for e in evs if e.get("ev") == "tau_thresholding"]
     dpr = [e for e in evs if e.get("ev") == "dp_reduce"]
     agg_mechs = [(m["map"], c, s) for m in o["mechanisms"] for c, s in m["sigmas"] if not c.startswith("_COUNT_DISTINCT_PID_")]
     tau_mechs = [(m["map"], c, s) for m in o["mechanisms"] for c, s in m["sigmas"] if c.startswith("_COUNT_DISTINCT_PID_")]
     info = {"agg_mechs": agg_mechs, "clip": clip}
+    if len({(m, c) for m, c, _ in agg_mechs}) != len({c for _, c, _ in agg_mechs}):
+        ambiguous = True
+    rec["ambiguous"] = ambiguous
+    if ambiguous and "multi" in cfg:
+        # which clip bound belongs to which sigma cannot be told from the names: nothing is claimed about this list
+        return rec, info
     # ---- C01 bounds
     for mp, col, s in agg_mechs:
         rec["bounds"].append({"col": col, "clip": N(clip.get(col, -1.0)), "bound": N(bound_ev.get(col, -2.0)), "sigma_ir": N(s), "sigma_ev": N(sig_ev.get(col, -3.0))})
@@ -476,9 +489,11 @@ def run(tier):
         r, i = facts(c, o)
         if "multi" in c["cfg"]:
             # these lists are compiled for the accounting judges only: nothing else is claimed about them
-            r.update({"sens": [], "keys": [], "unit_groups": [], "exact": []})
+            r.update({"sens": [], "keys": [], "unit_groups": [], "exact": [], "bounds": []})
         recs.append(r)
         infos.append(i)
+    info["multi_aggregate_lists_skipped_as_ambiguous"] = sum(1 for c, r in zip(cases, recs) if "multi" in c["cfg"] and r.get("ambiguous"))
+    info["multi_aggregate_lists_with_mechanisms_judged"] = sum(1 for c, r in zip(cases, recs) if "multi" in c["cfg"] and r.get("applied"))
     tp = os.path.join(wd, "trace.ndjson")
     C.write_ndjson(tp, recs)
     tr, fails, _ = C.validate_trace("Trace_DP", "Trace_DP.cfg", tp, "dp_judge", timeout=3000)
